@@ -289,4 +289,25 @@ theorem code_fllExportEngine (c : Cfg) (indent sep : String) (e : Engine) :
     simp only [hd, if_false] at key
     simpa [List.append_assoc] using key
 
+/-! ### the text of the ties is the text the driver renders (`Op.FllIO.renderLines`, compared with the real
+exporter's output by the correspondence runs) for the default indent and separator -/
+
+theorem lineText_default (d : ℕ) (l : Line) : lineText "  " d l = Line.render d l := by
+  unfold lineText Line.render Line.body
+  rw [joinSp_eq]
+  cases hts : l.toks with
+  | nil => simp [join_singleton, String.append_assoc]
+  | cons t ts =>
+    have : join " " ((l.key.text ++ ":") :: List.map (Tok.render d) (t :: ts)) =
+        (l.key.text ++ ":") ++ " " ++ " ".intercalate (List.map (Tok.render d) (t :: ts)) := by
+      rw [join, List.map_cons, String.intercalate_cons_cons]
+    rw [this]
+    simp only [hts, String.append_assoc, List.map_cons, if_false, reduceCtorEq]
+
+theorem engine_text_default (c : Cfg) (e : Engine) :
+    join "\n" ((fllExport c e).map (lineText "  " c.d) ++ [""]) = renderLines c.d (fllExport c e) := by
+  unfold renderLines join
+  congr 2
+  exact List.map_congr_left (fun l _ => lineText_default c.d l)
+
 end Py.Fll
